@@ -1874,7 +1874,8 @@ impl Server {
             let score = match &parts[i] {
                 RespFrame::BulkString(Some(bytes)) => {
                     match String::from_utf8_lossy(bytes).parse::<f64>() {
-                        Ok(n) => n,
+                        Ok(n) if !n.is_nan() => n,
+                        Ok(_) => return Ok(RespFrame::error("ERR value is not a valid float")),
                         Err(_) => return Ok(RespFrame::error("ERR value is not a valid float")),
                     }
                 }
@@ -2172,7 +2173,8 @@ impl Server {
         let min_score = match &parts[2] {
             RespFrame::BulkString(Some(bytes)) => {
                 match String::from_utf8_lossy(bytes).parse::<f64>() {
-                    Ok(n) => n,
+                    Ok(n) if !n.is_nan() => n,
+                    Ok(_) => return Ok(RespFrame::error("ERR value is not a valid float")),
                     Err(_) => return Ok(RespFrame::error("ERR min or max is not a float")),
                 }
             }
@@ -2183,7 +2185,8 @@ impl Server {
         let max_score = match &parts[3] {
             RespFrame::BulkString(Some(bytes)) => {
                 match String::from_utf8_lossy(bytes).parse::<f64>() {
-                    Ok(n) => n,
+                    Ok(n) if !n.is_nan() => n,
+                    Ok(_) => return Ok(RespFrame::error("ERR value is not a valid float")),
                     Err(_) => return Ok(RespFrame::error("ERR min or max is not a float")),
                 }
             }
@@ -2236,7 +2239,8 @@ impl Server {
         let max_score = match &parts[2] {
             RespFrame::BulkString(Some(bytes)) => {
                 match String::from_utf8_lossy(bytes).parse::<f64>() {
-                    Ok(n) => n,
+                    Ok(n) if !n.is_nan() => n,
+                    Ok(_) => return Ok(RespFrame::error("ERR value is not a valid float")),
                     Err(_) => return Ok(RespFrame::error("ERR min or max is not a float")),
                 }
             }
@@ -2247,7 +2251,8 @@ impl Server {
         let min_score = match &parts[3] {
             RespFrame::BulkString(Some(bytes)) => {
                 match String::from_utf8_lossy(bytes).parse::<f64>() {
-                    Ok(n) => n,
+                    Ok(n) if !n.is_nan() => n,
+                    Ok(_) => return Ok(RespFrame::error("ERR value is not a valid float")),
                     Err(_) => return Ok(RespFrame::error("ERR min or max is not a float")),
                 }
             }
@@ -2300,9 +2305,8 @@ impl Server {
         let min_score = match &parts[2] {
             RespFrame::BulkString(Some(bytes)) => {
                 match String::from_utf8_lossy(bytes).parse::<f64>() {
-                    Ok(n)
-
- => n,
+                    Ok(n) if !n.is_nan() => n,
+                    Ok(_) => return Ok(RespFrame::error("ERR value is not a valid float")),
                     Err(_) => return Ok(RespFrame::error("ERR min or max is not a float")),
                 }
             }
@@ -2313,7 +2317,8 @@ impl Server {
         let max_score = match &parts[3] {
             RespFrame::BulkString(Some(bytes)) => {
                 match String::from_utf8_lossy(bytes).parse::<f64>() {
-                    Ok(n) => n,
+                    Ok(n) if !n.is_nan() => n,
+                    Ok(_) => return Ok(RespFrame::error("ERR value is not a valid float")),
                     Err(_) => return Ok(RespFrame::error("ERR min or max is not a float")),
                 }
             }
@@ -2343,7 +2348,8 @@ impl Server {
         let increment = match &parts[2] {
             RespFrame::BulkString(Some(bytes)) => {
                 match String::from_utf8_lossy(bytes).parse::<f64>() {
-                    Ok(n) => n,
+                    Ok(n) if !n.is_nan() => n,
+                    Ok(_) => return Ok(RespFrame::error("ERR value is not a valid float")),
                     Err(_) => return Ok(RespFrame::error("ERR value is not a valid float")),
                 }
             }
